@@ -27,7 +27,10 @@ Definition lzma1_construct2 (input : list Z) (uncomp_size lc lp pb dict_size : Z
   : outcome lzma1 :=
   if (8 <? lc) || (4 <? lp) || (4 <? pb) then Err E_INVALID_INPUT else
   do ds <- lzma1_get_dict_size dict_size;
-  do ds1 <- (if (uncomp_size <=? U64_HALF) && (uncomp_size <? ds)
+  (* the buffer shrinks to a small declared size - but not when a preset dictionary has to fit
+     as well (fix in /repo; before it the shrunk buffer dropped the older part of the preset) *)
+  do ds1 <- (if (match preset with None => true | Some _ => false end) &&
+                (uncomp_size <=? U64_HALF) && (uncomp_size <? ds)
              then lzma1_get_dict_size (wrap32 uncomp_size) else Ok ds);
   do rc <- rdec_init input;
   do ds2 <- lzma1_get_dict_size ds1;
@@ -73,42 +76,48 @@ Definition lzma1_new_mem_limit (input : list Z) (mem_limit_kb : Z) (preset : opt
   | _ => Err E_UNEXPECTED_EOF
   end.
 
+(* one iteration of the while loop of read_decode, [len] > 0 bytes still wanted: returns the
+   bytes flushed, the new state (whose l_end_reached says whether the call ends here) *)
+Definition lzma1_iter (s : lzma1) (len : Z) : outcome (list Z * lzma1) :=
+  let copy_size_max :=
+    if (l_remaining s <=? U64_HALF) && (l_remaining s <? len) then l_remaining s else len in
+  let w := lzwin_set_limit (l_win s) copy_size_max in
+  do r <- lzma_decode (l_coder s) w (l_rc s) (l_probs s);
+  let '(c1, w1, status, d1, t1) := r in
+  (* rc.take_error(): a byte fetched past the end of the source (read_exact -> UnexpectedEof)
+     fails the call whatever was decoded (fix edbc5fd; before it the zeros were decoded) *)
+  if 0 <? rd_over d1 then Err E_UNEXPECTED_EOF else
+  (* Err from decode: fatal unless it is the end marker of a stream of unknown size *)
+  let after :=
+    match status with
+    | Ok _ => Ok (l_end_reached s, d1)
+    | Err e =>
+        if negb (l_remaining s =? U64_MAX) || negb (c_rep0 c1 =? 4294967295) then Err e
+        else if 0 <? rd_over (rdec_normalize d1) then Err E_UNEXPECTED_EOF
+        else Ok (true, rdec_normalize d1)
+    | Panic e => Panic e
+    | Fuel => Fuel
+    end in
+  do ed <- after;
+  let '(end1, d2) := ed in
+  let '(out, w2) := lzwin_flush w1 in
+  let copied := zlen out in
+  let remaining := if l_remaining s <=? U64_HALF then l_remaining s - copied else l_remaining s in
+  let end2 := end1 || ((l_remaining s <=? U64_HALF) && (remaining =? 0)) in
+  if end2 && lzwin_has_pending w2 then Err E_INVALID_DATA else
+  Ok (out, mkLzma1 c1 w2 d2 t1 end2 remaining).
+
 (* the while loop of read_decode; [len] bytes still wanted, [acc] = bytes produced, newest first *)
 Fixpoint lzma1_read_loop (fuel : nat) (s : lzma1) (len : Z) (acc : list Z) : outcome (list Z * lzma1) :=
   if len <=? 0 then Ok (frev acc, s) else
   match fuel with
   | O => Fuel
   | S f =>
-      let copy_size_max :=
-        if (l_remaining s <=? U64_HALF) && (l_remaining s <? len) then l_remaining s else len in
-      let w := lzwin_set_limit (l_win s) copy_size_max in
-      do r <- lzma_decode (l_coder s) w (l_rc s) (l_probs s);
-      let '(c1, w1, status, d1, t1) := r in
-      (* rc.take_error(): a byte fetched past the end of the source (read_exact -> UnexpectedEof)
-         fails the call whatever was decoded (fix edbc5fd; before it the zeros were decoded) *)
-      if 0 <? rd_over d1 then Err E_UNEXPECTED_EOF else
-      (* Err from decode: fatal unless it is the end marker of a stream of unknown size *)
-      let after :=
-        match status with
-        | Ok _ => Ok (l_end_reached s, d1)
-        | Err e =>
-            if negb (l_remaining s =? U64_MAX) || negb (c_rep0 c1 =? 4294967295) then Err e
-            else if 0 <? rd_over (rdec_normalize d1) then Err E_UNEXPECTED_EOF
-            else Ok (true, rdec_normalize d1)
-        | Panic e => Panic e
-        | Fuel => Fuel
-        end in
-      do ed <- after;
-      let '(end1, d2) := ed in
-      let '(out, w2) := lzwin_flush w1 in
-      let copied := zlen out in
-      let remaining := if l_remaining s <=? U64_HALF then l_remaining s - copied else l_remaining s in
-      let end2 := end1 || ((l_remaining s <=? U64_HALF) && (remaining =? 0)) in
-      let s1 := mkLzma1 c1 w2 d2 t1 end2 remaining in
+      do r <- lzma1_iter s len;
+      let '(out, s1) := r in
       let acc1 := rev_append out acc in
-      if end2 then
-        if lzwin_has_pending w2 then Err E_INVALID_DATA else Ok (frev acc1, s1)
-      else lzma1_read_loop f s1 (len - copied) acc1
+      if l_end_reached s1 then Ok (frev acc1, s1)
+      else lzma1_read_loop f s1 (len - zlen out) acc1
   end.
 
 (* read(buf) with buf.len() = buflen *)
